@@ -427,6 +427,21 @@ def r03d(ctx, run):
         run.check(len(sets) >= 1 and len(sets) == len(guards) and all(guards), f.site(), "%s: %d walks record a crossed Defer marker, %d guards yield no label" % (name, len(sets), len(guards)),
                   "Ctx::" + name, "defer-crossing", f.file, f.ln,
                   "%s: every label walk that can cross a ScopeKind::Defer must refuse (return None) when it did: %d walks, %d refusing guards" % (name, len(sets), sum(guards)))
+    # a refused jump must be REPORTED: the code generator believes a jump without label never reaches it (`label: None => unreachable!()`),
+    # which is only true if every refusal comes with an error diagnostic.  So no caller may ask for a silent refusal.
+    n_calls = 0
+    for f in ctx.syn.fns_in("hir/src/body.rs"):
+        if f.body is None:
+            continue
+        for c in walk(f.body):
+            if c.get("k") == "mcall" and c["m"] in ("resolve_first_label", "resolve_last_label") and canon(c["r"]) == "self":
+                n_calls += 1
+                silent = [canon(a) for a in c["a"] if canon(a).endswith("PassedDeferErr::Ignore")]
+                run.check(not silent, f.site(c["ln"]), "%s -> %s: a jump refused for crossing a defer is reported" % (f.qual, c["m"]), f.qual, "silent-refusal:" + c["m"], f.file, c["ln"],
+                          "%s asks %s to refuse a jump out of a `defer` SILENTLY (PassedDeferErr::Ignore): the statement keeps `label: None` without any error, "
+                          "the program is not rejected, and the code generator hits `label: None => unreachable!()`" % (f.qual, c["m"]))
+    if n_calls < 4:
+        raise LookupError("label resolution call sites: %d" % n_calls)
     # codegen side: unlabeled jumps are unreachable
     cs = ctx.syn.fn("FunctionCompiler::compile_stmt", "codegen/src/compiler/functions.rs")
     for m in synq.matches_on(cs.body):
@@ -441,5 +456,5 @@ def rules(ctx):
         Rule("R03.a", "every jump to a looked-up scope target passes the defer unwinder on every path", 2, r03a),
         Rule("R03.b", "every registered jump target has a DeferFrame with its id while its body is compiled; unwinder stop test", 4, r03b),
         Rule("R03.c", "LIFO: defers compiled reversed, frames innermost first, block's own defers in its exit block", 6, r03c),
-        Rule("R03.d", "lowering: Defer marker around deferred expressions; label resolution refuses to cross it", 5, r03d),
+        Rule("R03.d", "lowering: Defer marker around deferred expressions; label resolution refuses to cross it, and never silently", 9, r03d),
     ]
